@@ -17,10 +17,13 @@ SeedName(s) == CASE s = 0 -> "0" [] s = 1 -> "1" [] s = 2 -> "42"
                  [] s = W - 2 -> "18446744073709551614" [] s = W - 1 -> "18446744073709551615"
 SeedClasses == {0, 1, 2, 3, 4, W - 2, W - 1}
 \* n = 600 (HMC only): a batch large enough that an implementation might split the draw generation over threads
+\* n = 40 (MH, Gibbs: the generic parallel runner): more chains than any pool has workers, so that chains queue
+\*   and finish in an order that differs from their index order
 Scenarios ==
-  {x \in [kind : {"MH", "Gibbs", "HMC", "NUTS"}, n : {1, 2, 3, 5, 600}, seed : SeedClasses,
+  {x \in [kind : {"MH", "Gibbs", "HMC", "NUTS"}, n : {1, 2, 3, 5, 40, 600}, seed : SeedClasses,
            threads : {1, 2, 4, 16}, concurrent : {"none", "same", "hmc"}, progress : {FALSE, TRUE}, second : {FALSE, TRUE}] :
-      x.n <= 5 \/ (x.kind = "HMC" /\ x.concurrent = "none")}
+      x.n <= 5 \/ (x.kind = "HMC" /\ x.n = 600 /\ x.concurrent = "none")
+      \/ (x.kind \in {"MH", "Gibbs"} /\ x.n = 40 /\ x.concurrent = "none")}
 Init == /\ sc = [kind |-> "none"]
         /\ kind = <<>> /\ n = <<>> /\ sigma = <<>> /\ acc = <<>> /\ prop = <<>> /\ done = <<>> /\ out = <<>>
         /\ gpos = 0 /\ fresh = 0 /\ phase = <<>> /\ used = <<>>
